@@ -29,7 +29,7 @@ META = {
         "its k-th line event inside the xsdata package, k a symbolic integer over EVERY line boundary of the call (1k-6k per call, also inside comprehensions, sort keys and nested calls); thread B then runs one complete call; A resumes. "
         "Both results must equal the results of the calls run alone on fresh instances. quick: 6 x 5 operation pairs with 11 loaded model classes; thorough: the quick pairs plus 102 x 2 pairs with all harness classes loaded",
     ],
-    "outside": ["preemption inside a statement", "more than 2 threads, more preemptions", "the parsers' per-call state (not shared by design)", "full parse / serialize calls with more than one preemption (fullcall explores exactly one suspension of A with B atomic; finer interleavings only for the lowered context / XmlVar API)", "from_path / XInclude / file I/O"],
+    "outside": ["preemption inside a statement", "more than 2 threads, more preemptions", "the parsers' per-call state (not shared by design)", "full parse / serialize calls with more than one preemption (fullcall explores exactly one suspension of A with B atomic; finer interleavings only for the lowered context / XmlVar API)", "file routes other than from_path with XInclude on two directories"],
     "stubs": ["XmlContext.get_subclasses(object) iterates a pool of model classes (the set of loaded classes is environment)", "coroutine lowering (sched/__init__.py) stands for thread preemption at statement boundaries"],
     "assumptions": ["the GIL makes single bytecode-level dict/list operations atomic; a statement boundary is a possible preemption point"],
 }
@@ -225,8 +225,31 @@ def _full_ops():
     ops.append(("xpn:unknown-root", lambda s: s["xp"].from_string('<nope xmlns="urn:zz"/>')))
     ops.append(("xpn:derived-root", lambda s: s["xp"].from_string('<derived xmlns="urn:a"><x>1</x><y>q</y></derived>')))
     ops.append(("tp:wild", lambda s, xml=xs.render(mutate.DOCS["wild"][1]): s["tp"].from_string(xml)))
+    # file routes on a shared XInclude-enabled parser (both handlers): two directories, each with its own part.xml
+    files = _xinclude_files()
+    for h in ("xi_lxml", "xi_native"):
+        for name in ("alpha", "beta"):
+            ops.append((f"{h}:{name}", lambda s, h=h, path=files[name]: s[h].from_path(path, Basic)))
     _FULL = ops
     return ops
+
+
+def _xinclude_files():
+    """<tmp>/alpha/main.xml and <tmp>/beta/main.xml, both including href="part.xml" (their own directory's); removed at exit."""
+    import atexit
+    import pathlib
+    import shutil
+    import tempfile
+
+    root = pathlib.Path(tempfile.mkdtemp(prefix="xsv_c19_"))
+    atexit.register(shutil.rmtree, str(root), True)
+    out = {}
+    for name in ("alpha", "beta"):
+        (root / name).mkdir()
+        (root / name / "main.xml").write_text('<basic xmlns="urn:a" xmlns:xi="http://www.w3.org/2001/XInclude"><i>1</i><xi:include href="part.xml"/></basic>')
+        (root / name / "part.xml").write_text(f'<s xmlns="urn:a">{name}</s>')
+        out[name] = root / name / "main.xml"
+    return out
 
 
 def full_index(label):
@@ -235,10 +258,14 @@ def full_index(label):
 
 def _full_shared():
     from xsdata.formats.dataclass.parsers import JsonParser, TreeParser, XmlParser
+    from xsdata.formats.dataclass.parsers.config import ParserConfig
+    from xsdata.formats.dataclass.parsers.handlers import LxmlEventHandler, XmlEventHandler
     from xsdata.formats.dataclass.serializers import JsonSerializer, XmlSerializer
 
     c = XmlContext()
-    return {"xp": XmlParser(context=c), "xs": XmlSerializer(context=c), "jp": JsonParser(context=c), "js": JsonSerializer(context=c), "tp": TreeParser(context=c)}
+    return {"xp": XmlParser(context=c), "xs": XmlSerializer(context=c), "jp": JsonParser(context=c), "js": JsonSerializer(context=c), "tp": TreeParser(context=c),
+            "xi_lxml": XmlParser(context=c, config=ParserConfig(process_xinclude=True), handler=LxmlEventHandler),
+            "xi_native": XmlParser(context=c, config=ParserConfig(process_xinclude=True), handler=XmlEventHandler)}
 
 
 def _full_call(f, shared):
@@ -323,14 +350,19 @@ def fullcall(a: int, b: int, k: int) -> bool:
         return result(_fullcall(ca, cb, ck)["ok"])
 
 
+def _uses_child(label):
+    """Operations on the documents that contain the namespace-less class Child under a namespaced parent (the signature of the C14 finding)."""
+    return label.split(":")[-1] in ("parenta", "holdernest")
+
+
 _SERIAL = {}
 _KNOWN_C14 = known("C14-cache-parent-namespace")
 
 
 def _serial(a, b):
-    """Results of the two SERIAL orders on one shared state.  Where they already differ from the solo results the pair shows
-    the listed known finding C14-cache-parent-namespace (history dependence, C14's subject): while it is listed, an
-    interleaved run may return what one of the serial orders returns."""
+    """Results of the two SERIAL orders on one shared state.  For pairs of operations on the documents that hold the namespace-less
+    class Child (exactly the signature of the listed known finding C14-cache-parent-namespace, history dependence) an interleaved
+    run may, while that finding is listed, return what one of the serial orders returns."""
     if (a, b) not in _SERIAL:
         ops = _full_ops()
         s1 = _full_shared()
@@ -349,7 +381,7 @@ def _fullcall(a, b, k):
     if "b" not in out:
         return {"ok": True, "skipped": "preemption index beyond the end of A"}
     ok_a, ok_b = [solo[a]], [solo[b]]
-    if _KNOWN_C14:
+    if _KNOWN_C14 and _uses_child(ops[a][0]) and _uses_child(ops[b][0]):
         ab, ba = _serial(a, b)
         ok_a += [ab[0], ba[0]]
         ok_b += [ab[1], ba[1]]
@@ -367,6 +399,7 @@ EXPLAIN = {"interleave": replay_real, "fullcall": explain_full}
 
 FULL_QUICK_A = ["xp:holder", "xpn:holder", "xp:unionmodels", "xp:wild", "xs:holder", "jpn:holder"]
 FULL_QUICK_B = ["xp:holder", "xp:badint", "xp:wild", "jpn:holder", "xp:unionmodels"]
+FULL_FILE_PAIRS = [("xi_lxml:alpha", "xi_lxml:beta"), ("xi_native:alpha", "xi_native:beta"), ("xi_native:beta", "xi_lxml:alpha")]
 FULL_THOROUGH_B = ["xp:holder", "xp:badint"]
 
 
@@ -380,6 +413,8 @@ def plan(tier):
             if quick:
                 part["small"] = 1
             jobs.append(Job("fullcall", part, 900 if quick else 3000, 60, note=f"A={la} suspended at any line boundary, B={lb} runs to completion"))
+    for la, lb in FULL_FILE_PAIRS:
+        jobs.append(Job("fullcall", {"a": labels.index(la), "b": labels.index(lb), "small": 1}, 900, 60, note=f"A={la} suspended at any line boundary, B={lb} runs to completion (XInclude file route)"))
     if not quick:
         for la in FULL_QUICK_A:
             for lb in FULL_QUICK_B:
